@@ -343,22 +343,28 @@ def _h8(s):
     return hashlib.sha256(s.encode('utf-8', 'surrogatepass')).hexdigest()[:16]
 
 
-def run_task(task):
+ISOLATE_TASKS = True       # a task is one process lifetime (sim/runner.py)
+
+
+def task_items(task):
     if task['kind'] == 'trunc':
-        items = trunc_items(task['idx'], task['stride'], task['phase'])
-    elif task['kind'] == 'deep':
-        items = [it for it in deep_items()
-                 if it['id'].startswith('deep%d.' % task['k'])]
-    elif task['kind'] == 'mut':
-        items = [gen_item(s) for s in task['seeds']]
-    else:
-        items = task['items']
+        return trunc_items(task['idx'], task['stride'], task['phase'])
+    if task['kind'] == 'deep':
+        return [it for it in deep_items()
+                if it['id'].startswith('deep%d.' % task['k'])]
+    if task['kind'] == 'mut':
+        return [gen_item(s) for s in task['seeds']]
+    return task['items']
+
+
+def run_task(task):
+    items = task_items(task)
     log = core.EventLog()
     res = {'id': task['id'], 'n': 0, 'outcomes': {}, 'fired': {},
            'triples': {}, 'texts': {}, 'violations': [], 'steps': 0,
            'probes': {}, 'nontrivial': 0, 'samples': [], 'kept_texts': {}}
     seen = set()
-    for it in items:
+    for pos, it in enumerate(items):
         out, viols = read_text(it['text'])
         th = _h8(it['text'])
         ev = _event(out)[:16]
@@ -383,7 +389,8 @@ def run_task(task):
             v['spec'] = {'property': PROP, 'text': it['text'],
                          'twice': True, 'base': it['base'],
                          'faults': it['faults'],
-                         'budget': budget(len(it['text']))}
+                         'budget': budget(len(it['text'])),
+                         'history_task': {'task': task, 'upto': pos}}
             v['run'] = it['id']
             res['violations'].append(v)
         res['texts'][th] = ev
@@ -418,7 +425,11 @@ def run_task(task):
         for v in viols:
             v['spec'] = {'property': PROP, 'text': it['text'],
                          'base': it['base'], 'faults': it['faults'],
-                         'budget': budget(len(it['text']))}
+                         'budget': budget(len(it['text'])),
+                         # what this process had read before (the replay
+                         # reads it again first; the shrinker drops what is
+                         # not needed, usually all of it)
+                         'history_task': {'task': task, 'upto': pos}}
             v['run'] = it['id']
             res['violations'].append(v)
     res['digest'] = log.digest()
@@ -437,15 +448,32 @@ def run_task(task):
 
 # ------------------------------------------------------------------- replay
 
-def execute_spec(spec):
-    """Replay an explicit spec; returns (violations, event digest)."""
-    out, viols = read_text(spec['text'])
+def spec_history(spec):
+    """The texts read before spec['text'] in its process lifetime."""
+    if spec.get('history') is not None:
+        return list(spec['history'])
+    ht = spec.get('history_task')
+    if ht:
+        return [it['text'] for it in task_items(ht['task'])[:ht['upto']]]
+    return []
+
+
+def execute_spec(spec, fast=False):
+    """Replay an explicit spec (in a process that has read nothing yet);
+    returns (violations, event digest)."""
+    ev1 = None
+    for t in spec_history(spec):
+        o, _ = read_text(t, fast=True)
+        if ev1 is None and t == spec['text']:
+            ev1 = _event(o)        # the first reading of the same text
+    out, viols = read_text(spec['text'], fast=fast)
     if spec.get('twice'):
-        ev1 = _event(out)
-        out, viols2 = read_text(spec['text'])
-        viols = viols + [v for v in viols2
-                         if v['signature'] not in
-                         [w['signature'] for w in viols]]
+        if ev1 is None:
+            ev1 = _event(out)
+            out, viols2 = read_text(spec['text'])
+            viols = viols + [v for v in viols2
+                             if v['signature'] not in
+                             [w['signature'] for w in viols]]
         if _event(out) != ev1:
             viols.append(core.violation(
                 PROP, 'same-text-same-outcome', 'history-dependent-read',
@@ -483,7 +511,36 @@ def cross_cell(cells, prop):
     return viols
 
 
+def _forked(fn, timeout=600):
+    """fn() in a fork of this process (which has read nothing): the test
+    runs of the shrinker must not see each other's history."""
+    from sim.zygote import _run_chain_forked
+    kind, val = _run_chain_forked(lambda st, c: fn(), None, None, timeout)
+    return val if kind == 'ok' else False
+
+
 def shrink(spec, signature):
+    hist = spec_history(spec)
+    spec = dict((k, v) for k, v in spec.items() if k != 'history_task')
+    if hist:
+        from sim.shrink import ddmin
+
+        def test_hist(h):
+            def run():
+                viols, _, _ = execute_spec(dict(spec, history=list(h)),
+                                           fast=True)
+                return any(v['signature'] == signature for v in viols)
+            return _forked(run)
+        if test_hist([]):
+            hist = []
+        elif test_hist(hist):
+            hist = ddmin(hist, test_hist, max_tests=150)
+        spec['history'] = hist
+        if hist:
+            # history-dependent: the text itself is kept as it is
+            spec['history_needed'] = len(hist)
+            return spec
+    spec.pop('history', None)
     if spec.get('twice'):
         return spec
 
